@@ -236,6 +236,57 @@ def _tg_step(m, op):
     return None, 1, op[0] + (":raised" if st == "exc" else ""), (op[0], st, len(m[0])), viols
 
 
+def _rebuild_tg(snap):
+    names, lo, hi, tiers = snap
+    tg = Textgrid(lo, hi)
+    for c in tiers:
+        tg.addTier(mk(c), reportingMode="silence")
+    tg.minTimestamp, tg.maxTimestamp = lo, hi
+    return tg
+
+
+def _check_tg_history(case):
+    """op1 (a mutator, possibly failing) and a priming query on ONE live textgrid; afterwards the live textgrid and one
+    rebuilt from its observable state must answer every copy-returning operation / query identically."""
+    m0, op1, prime = case
+    tg = c12.build(m0)
+    other = c12.build(((("a", 0), ("q", 1)), 0.0, 2.0))
+    if prime is not None:
+        call(_tg_extra, tg, prime, other)
+    call(c12._apply, tg, op1)
+    snap = snap_tg(tg)
+    try:
+        fresh = _rebuild_tg(snap)
+    except Exception:
+        return 2, "unconstructible", None, []
+    viols = []
+    n = 2
+    for op in TG_EXTRA:
+        if op[0] in ("save", "badadd", "badrep"):
+            continue
+        n += 2
+        a = call(_tg_extra, tg, op, other)
+        b = call(_tg_extra, fresh, op, c12.build(((("a", 0), ("q", 1)), 0.0, 2.0)))
+
+        def norm(x):
+            st, r, out = x
+            if st == "exc":
+                return ("raised", type(r).__name__)
+            if isinstance(r, Textgrid):
+                return ("tg", snap_tg(r))
+            if hasattr(r, "entries"):
+                return ("tier", canon(r))
+            return ("val", repr(r) if not isinstance(r, tuple) else repr(r[:3]))
+        if norm(a) != norm(b):
+            viols.append(Viol("tg-history-dependent", f"after {prime} and {op1} on one live textgrid built from {m0}: {op} gives {norm(a)} but a textgrid "
+                                                      f"rebuilt from the same observable state gives {norm(b)}"))
+            break
+        if snap_tg(tg) != snap:
+            viols.append(Viol("receiver-mutated", f"{op} changed the live textgrid"))
+            break
+    return n, "ok", (op1[0], prime[0] if prime else None, len(m0[0])), viols
+
+
 # ------------------------------------------------------------------ failing saves onto an existing file
 SAVE_TGS = (
     (("I", "a", ((0.0, 1.0, "x"), (1.5, 2.0, "y")), 0.0, 2.0), ("P", "p", ((0.5, "p"),), 0.0, 2.0)),
@@ -331,6 +382,15 @@ def parts(tier):
              "live tier and a fresh tier rebuilt from its observable fields must agree under a battery of ~20 observations as "
              "receiver and as argument (a query that leaves stale hidden state has changed the receiver)",
         bounds={"seed_tiers": len(hseeds)}, chunk=16))
+
+    tg_seeds = (((), None, None), ((("a", 0),), 0.0, 2.0), ((("b", 1), ("a", 2)), 0.0, 3.0), ((("a", 0), ("b", 3), ("d", 4)), 0.0, 2.0))
+    primes = (None, ("crop", 0.5, 1.5, "truncated", False), ("validate", "silence"), ("merge", None, True), ("new",), ("eq",))
+    ps.append(InputPart(
+        "textgrid-history-independence",
+        lambda: ((m0, op1, pr) for m0 in tg_seeds for op1 in c12._ops(4, 5)(m0) for pr in (primes if op1[0] != "add" or op1[3] is None else primes[:2])),
+        _check_tg_history,
+        rule="(priming query, mutator) sequences on ONE live textgrid from 4 seed textgrids; afterwards every copy-returning operation and "
+             "query must give the same result as on a textgrid rebuilt from the observable state", bounds={}, chunk=8))
 
     def gen_save():
         for ti in range(len(SAVE_TGS)):
